@@ -128,84 +128,31 @@ theorem labels_localdomain : labels localdomain = [localdomain] := by decide
 theorem localhost_ne_nil : localhost ≠ [] := by decide
 theorem localdomain_ne_nil : localdomain ≠ [] := by decide
 
-/-- conclusion of `localhost_sound` -/
-def LHGoal (r : NameRole) (host w : Str) (isW : Bool) : Prop :=
-    (labels host = [localhost] ∨ labels host = [localdomain]
-      ∨ (r.allowSub = true ∧ (underLabels (labels host) [localhost] ∨ underLabels (labels host) [localdomain])))
-    ∨ (r.allowSub = false ∧ isW = true ∧ countCh w '*' = 1 ∧ containsCh w '.' = false ∧
-        (host = w ++ '.' :: localhost ∨ host = w ++ '.' :: localdomain))
-
-/-- the localhost block, read at label level; the second alternative is the one exception -/
-theorem localhost_sound {r : NameRole} {host w reduced ed : Str} {isEmail isW : Bool}
-    (hf : HostForm host w reduced isW) (hed : isEmail = true → ed = host ∧ isW = false)
-    (hw : isW = true → countCh w '*' = 1 ∧ containsCh w '.' = false)
-    (h : localhostMatches r reduced ed isEmail isW = true) : LHGoal r host w isW := by
-  -- a reduced name equal to one of the two bases
-  have base : ∀ b : Str, b ≠ [] → labels b = [b] → reduced = b →
-      (labels host = [b] ∨ (r.allowSub = true ∧ underLabels (labels host) [b]))
-      ∨ (r.allowSub = false ∧ isW = true ∧ countCh w '*' = 1 ∧ containsCh w '.' = false ∧ host = w ++ '.' :: b) := by
-    intro b hb hlb he
-    cases hW : isW with
-    | false =>
-      rcases hf with ⟨_, hr⟩ | ⟨hc, _⟩
-      · left; left; rw [← hr, he, hlb]
-      · rw [hW] at hc; simp at hc
-    | true =>
-      subst hW
-      have hu := under_of_wild_eq hf he hb
-      rw [hlb] at hu
-      cases hs : r.allowSub with
-      | true => left; right; exact ⟨rfl, hu⟩
-      | false =>
-        right
-        obtain ⟨h1, h2⟩ := hw rfl
-        refine ⟨rfl, rfl, h1, h2, ?_⟩
-        rcases hf with ⟨hc, _⟩ | ⟨_, ⟨hr, _⟩ | hh⟩
-        · simp at hc
-        · exact absurd (he ▸ hr) hb
-        · rw [hh, he]
-  have emailBase : ∀ b : Str, isEmail = true → ed = b → reduced = b := by
-    intro b hem he
-    obtain ⟨e1, e2⟩ := hed hem
-    rcases hf with ⟨_, hr⟩ | ⟨hc, _⟩
-    · rw [hr, ← e1, he]
-    · rw [e2] at hc; simp at hc
-  have fromLH := fun (he : reduced = localhost) => base localhost localhost_ne_nil labels_localhost he
-  have fromLD := fun (he : reduced = localdomain) => base localdomain localdomain_ne_nil labels_localdomain he
-  have liftLH : ((labels host = [localhost] ∨ (r.allowSub = true ∧ underLabels (labels host) [localhost]))
-      ∨ (r.allowSub = false ∧ isW = true ∧ countCh w '*' = 1 ∧ containsCh w '.' = false ∧ host = w ++ '.' :: localhost)) → LHGoal r host w isW := by
-    intro hh
-    unfold LHGoal
-    rcases hh with (h1 | ⟨h1, h2⟩) | ⟨h1, h2, h3, h4, h5⟩
-    · exact Or.inl (Or.inl h1)
-    · exact Or.inl (Or.inr (Or.inr ⟨h1, Or.inl h2⟩))
-    · exact Or.inr ⟨h1, h2, h3, h4, Or.inl h5⟩
-  have liftLD : ((labels host = [localdomain] ∨ (r.allowSub = true ∧ underLabels (labels host) [localdomain]))
-      ∨ (r.allowSub = false ∧ isW = true ∧ countCh w '*' = 1 ∧ containsCh w '.' = false ∧ host = w ++ '.' :: localdomain)) → LHGoal r host w isW := by
-    intro hh
-    unfold LHGoal
-    rcases hh with (h1 | ⟨h1, h2⟩) | ⟨h1, h2, h3, h4, h5⟩
-    · exact Or.inl (Or.inr (Or.inl h1))
-    · exact Or.inl (Or.inr (Or.inr ⟨h1, Or.inr h2⟩))
-    · exact Or.inr ⟨h1, h2, h3, h4, Or.inr h5⟩
+/-- the localhost block, read at label level -/
+theorem localhost_sound {r : NameRole} {n host w reduced ed : Str} {isEmail isW : Bool}
+    (hf : HostForm host w reduced isW) (hed : isEmail = true → ed = host)
+    (hname : ∀ b : Str, (b = localhost ∨ b = localdomain) → n = b → host = b)
+    (h : localhostMatches r n reduced ed isEmail isW = true) :
+    labels host = [localhost] ∨ labels host = [localdomain]
+      ∨ (r.allowSub = true ∧ (underLabels (labels host) [localhost] ∨ underLabels (labels host) [localdomain])) := by
   unfold localhostMatches at h
   simp only [Bool.or_eq_true, Bool.and_eq_true] at h
   rcases h with (((h | h) | ⟨hem, h⟩) | ⟨hem, h⟩) | ⟨hsub, h⟩
-  · exact liftLH (fromLH (beq_str h))
-  · exact liftLD (fromLD (beq_str h))
-  · exact liftLH (fromLH (emailBase _ hem (beq_str h)))
-  · exact liftLD (fromLD (emailBase _ hem (beq_str h)))
-  · rcases h with ((h | ⟨_, h⟩) | h) | ⟨_, h⟩
-    · have := under_of_suffix hf h
-      rw [labels_localhost] at this
-      unfold LHGoal
-      exact Or.inl (Or.inr (Or.inr ⟨hsub, Or.inl this⟩))
-    · exact liftLH (fromLH (beq_str h))
-    · have := under_of_suffix hf h
-      rw [labels_localdomain] at this
-      unfold LHGoal
-      exact Or.inl (Or.inr (Or.inr ⟨hsub, Or.inr this⟩))
-    · exact liftLD (fromLD (beq_str h))
+  · left; rw [hname _ (Or.inl rfl) (beq_str h), labels_localhost]
+  · right; left; rw [hname _ (Or.inr rfl) (beq_str h), labels_localdomain]
+  · left; rw [← hed hem, beq_str h, labels_localhost]
+  · right; left; rw [← hed hem, beq_str h, labels_localdomain]
+  · right; right
+    refine ⟨hsub, ?_⟩
+    rcases h with ((h | ⟨hW, h⟩) | h) | ⟨hW, h⟩
+    · left; have := under_of_suffix hf h; rwa [labels_localhost] at this
+    · left; subst hW
+      have := under_of_wild_eq hf (beq_str h) localhost_ne_nil
+      rwa [labels_localhost] at this
+    · right; have := under_of_suffix hf h; rwa [labels_localdomain] at this
+    · right; subst hW
+      have := under_of_wild_eq hf (beq_str h) localdomain_ne_nil
+      rwa [labels_localdomain] at this
 
 /-- the token display name block -/
 theorem displayName_sound {r : NameRole} {n host w reduced : Str} {isEmail isW : Bool}
@@ -256,11 +203,10 @@ theorem domain_sound {r : NameRole} {n host w reduced ed d : Str} {isEmail isW :
   · right; right
     exact ⟨hg, hc, glob_sound h⟩
 
-/-- `validateName` accepts only names the label-level reading of the role allows — or a wildcard over
-localhost / localdomain without `allow_subdomains` (what the unchanged code really does). -/
+/-- `validateName` accepts only names the label-level reading of the role allows. -/
 theorem validateName_sound (r : NameRole) (n : Str)
     (hdn : r.allowTokenDisplayName = true → r.displayName ≠ [])
-    (h0 : validateName r n = true) : nameAllowed r n ∨ wildcardLocalhost r n := by
+    (h0 : validateName r n = true) : nameAllowed r n := by
   have h : validateNameBody r n = true := by
     unfold validateName at h0
     simp only [Bool.and_eq_true] at h0
@@ -304,42 +250,33 @@ theorem validateName_sound (r : NameRole) (n : Str)
         · simp at h
         · split at h
           · rename_i hany
-            exact Or.inl ⟨_, hshape, hwildSpec, Or.inl hany⟩
+            exact ⟨_, hshape, hwildSpec, Or.inl hany⟩
           · split at h
             · rename_i hlh
               simp only [Bool.and_eq_true] at hlh
               obtain ⟨hlh1, hlh2⟩ := hlh
-              have := localhost_sound (r := r) hf
-                (by intro hem
-                    refine ⟨hed, ?_⟩
-                    cases hc : containsCh r0 '*' with
-                    | false => rfl
-                    | true => exact absurd ⟨hem, hc⟩ hnotboth)
-                (by intro hc; obtain ⟨_, _, c1, c2⟩ := hwf hc; exact ⟨c1, c2⟩) hlh2
-              unfold LHGoal at this
-              rcases this with hok | ⟨hs, hW, c1, c2, hhost⟩
-              · exact Or.inl ⟨_, hshape, hwildSpec, Or.inr (Or.inl ⟨hlh1, hok⟩)⟩
-              · right
-                obtain ⟨haw, hne, _⟩ := hwildSpec hW
-                have hname : n = r0 := by
-                  rcases hshape with ⟨_, hh, _⟩ | ⟨hh, _⟩
-                  · exact hh.symm
-                  · simp at hh; rw [hne] at hh; simp at hh
-                refine ⟨hlh1, hs, haw, w, c1, c2, ?_⟩
-                rw [hname]
-                exact hhost
+              have hnm : ∀ b : Str, (b = localhost ∨ b = localdomain) → n = b → r0 = b := by
+                intro b hb hnb
+                rcases hshape with ⟨_, hh, _⟩ | ⟨_, loc, hname, _, _⟩
+                · exact hh.trans hnb
+                · have hc : containsCh n '@' = true := by
+                    rw [hname, containsCh_append, containsCh_cons]; simp
+                  rw [hnb] at hc
+                  rcases hb with rfl | rfl <;> exact absurd hc (by decide)
+              have := localhost_sound (r := r) (n := n) hf (fun _ => hed) hnm hlh2
+              exact ⟨_, hshape, hwildSpec, Or.inr (Or.inl ⟨hlh1, this⟩)⟩
             · split at h
               · rename_i htd
                 simp only [Bool.and_eq_true] at htd
                 obtain ⟨htd1, htd2⟩ := htd
                 have := displayName_sound (r := r) (n := n) hf (hdn htd1) htd2
-                exact Or.inl ⟨_, hshape, hwildSpec, Or.inr (Or.inr (Or.inl ⟨htd1, this⟩))⟩
+                exact ⟨_, hshape, hwildSpec, Or.inr (Or.inr (Or.inl ⟨htd1, this⟩))⟩
               · obtain ⟨d, hdmem, hdm⟩ := List.any_eq_true.mp h
                 simp only [List.mem_filter] at hdmem
                 obtain ⟨hdin, hdne⟩ := hdmem
                 have hdne' : d ≠ [] := by
                   intro hh; subst hh; simp at hdne
                 have := domain_sound (r := r) (n := n) hf hed hdne' hdm
-                exact Or.inl ⟨_, hshape, hwildSpec, Or.inr (Or.inr (Or.inr ⟨d, hdin, hdne', this⟩))⟩
+                exact ⟨_, hshape, hwildSpec, Or.inr (Or.inr (Or.inr ⟨d, hdin, hdne', this⟩))⟩
 
 end Obao.PKI
